@@ -36,6 +36,7 @@ class TCPServer:
         self.send_lock = asyncio.Lock()
         self.state = state
         self.idle_task = AsyncioSingleTask()
+        self._reading = True
 
     def __await__(self) -> Generator[Any, None, None]:
         return self.run().__await__()
@@ -86,7 +87,7 @@ class TCPServer:
         elif isinstance(event, Closed):
             await self._close()
         elif isinstance(event, Updated):
-            if event.idle:
+            if event.idle and self._reading:
                 await self.idle_task.restart(self._task_group, self._idle_timeout)
             else:
                 await self.idle_task.stop()
@@ -106,6 +107,10 @@ class TCPServer:
             else:
                 await self.protocol.handle(RawData(data))
 
+        # Nothing more can be read, the keep alive timer has no
+        # further purpose (and would delay the completion of run).
+        self._reading = False
+        await self.idle_task.stop()
         await self.protocol.handle(Closed())
 
     async def _close(self) -> None:
